@@ -42,13 +42,17 @@ def matches_declared(world, exc, declared):
 def verify_function(world, registry, con, vname=''):
     res = FunctionResult(con.target, vname)
     t0 = time.time()
+    if con.native_only:
+        res.status = 'bounded_by_design'
+        res.message = con.native_only
+        return res
     found = world.find_function(con.target)
     if found is None:
         res.status = 'stale_contract'
         res.message = f"target {con.target} not found in source"
         return res
     module, cls, fn = found
-    params, requires, ensures, raises, may_raise, returns = con.for_variant(vname)
+    params, requires, ensures, raises, may_raise, returns = con.for_variant(vname, getattr(registry, 'current_prop', None))
     is_gen = any(isinstance(n, (ast.Yield, ast.YieldFrom)) for n in ast.walk(fn))
     work = [[]]
     seen_ob = set()
